@@ -234,4 +234,12 @@ func (v *VerifBatch) RegisterChannel() {
 	}
 }
 
+// ReqOf returns the request pointer of the entry registered in batched under this id (nil if none).
+func (v *VerifBatch) ReqOf(cid int, id uint64) *tikvpb.BatchCommandsRequest_Request {
+	if e, ok := v.a.batchCommandsClients[cid].batched.Load(id); ok {
+		return e.(*batchCommandsEntry).req
+	}
+	return nil
+}
+
 func VerifPanicCount() int64 { return atomic.LoadInt64(&BatchSendLoopPanicCounter) }
